@@ -275,6 +275,11 @@ def run_check(prop, module, tier, seed):
                 known_hit.append((ob, v, kf))
                 n_real -= 1          # reported separately: not part of the obligations claimed to hold
                 by_kind[ob.kind] -= 1
+            elif 'inv-' in ob.kind and not (v.replay and v.replay.get('confirmed')):
+                # a loop-invariant obligation that does not go through is a FAILED PROOF, not a counterexample: the invariant may simply not
+                # fit a restructured (still correct) loop.  Without a failing input replayed on the real code it is undecided.
+                v.detail = 'inductive step / invariant not established and no failing input found on the real code: ' + (v.detail or '')
+                undecided.append((ob, v))
             elif ob.deciding:
                 violations.append((ob, v, None))
             else:
